@@ -163,6 +163,8 @@ def check_secrets(rec, where):
             if e['kind'] not in ('password', 'passphrase') or e['data'] != PASSWORD:
                 raise Violation('password-leaked', '%s: the password was received during the %r step as %r'
                                 % (where, e['kind'], e['data']))
+        if e['kind'] == 'termtype' and e['data'] not in ('ansi', '', PASSWORD, 'yes') and not e['data'].startswith(('unset', 'PS1', 'set prompt', 'prompt restore')):
+            raise Violation('termtype-answer', '%s: the terminal-type question was answered with %r' % (where, e['data']))
         if e['data'].strip() == 'yes' and e['kind'] != 'hostkey':
             raise Violation('yes-unasked', "%s: 'yes' was received during the %r step" % (where, e['kind']))
     if n_pw > 1:
